@@ -51,6 +51,44 @@ type Contract struct {
 	Covers     []*Clause
 	Asserts    map[string][]*Clause // anchor -> assert clauses (anchor "call:Name@n")
 	HavocCalls bool
+	RecvFrom   []*RecvRule
+}
+
+// RecvRule: facts (and ghost effects) attached to a channel receive.
+type RecvRule struct {
+	Pkg      string
+	ElemType string // for global rules
+	ChanName string // for unit-level rules (recv-from)
+	Modifies []string
+	Expr     *SExpr
+	Text     string
+	Line     int
+}
+
+func parseRecvRule(rest string) (string, *RecvRule, error) {
+	k := strings.Index(rest, ":")
+	if k < 0 {
+		return "", nil, fmt.Errorf("recv rule needs '<key>: [modifies ghost.x ...;] expr'")
+	}
+	key := strings.TrimSpace(rest[:k])
+	body := strings.TrimSpace(rest[k+1:])
+	r := &RecvRule{}
+	if strings.HasPrefix(body, "modifies") {
+		semi := strings.Index(body, ";")
+		if semi < 0 {
+			return "", nil, fmt.Errorf("recv rule: modifies list must end with ';'")
+		}
+		for _, m := range strings.Fields(strings.ReplaceAll(body[len("modifies"):semi], ",", " ")) {
+			r.Modifies = append(r.Modifies, strings.TrimPrefix(m, "ghost."))
+		}
+		body = strings.TrimSpace(body[semi+1:])
+	}
+	e, err := parseSpecExpr(body)
+	if err != nil {
+		return "", nil, err
+	}
+	r.Expr, r.Text = e, body
+	return key, r, nil
 }
 
 type GhostDecl struct {
@@ -92,6 +130,7 @@ type ContractFile struct {
 	SpecFuncs []*SpecFunc
 	Lemmas    []*Lemma
 	Types     []*TypeSpec
+	RecvRules []*RecvRule
 }
 
 var clauseKeywords = map[string]bool{
@@ -100,7 +139,7 @@ var clauseKeywords = map[string]bool{
 	"nowrap": true, "concurrent": true, "deterministic": true, "ghost": true, "spec": true,
 	"axiom": true, "lemma": true, "const-invariant": true, "type": true, "guarded_by": true,
 	"monitor": true, "invariant": true, "cover": true, "trusted": true, "opt": true, "assert": true,
-	"havoc-calls": true, "end": true,
+	"havoc-calls": true, "end": true, "recv": true, "recv-from": true,
 }
 
 func parseContractFile(path, pkgPath string) (*ContractFile, error) {
@@ -325,6 +364,23 @@ func parseContractFile(path, pkgPath string) (*ContractFile, error) {
 			target.Determ = true
 		case "havoc-calls":
 			target.HavocCalls = true
+		case "recv":
+			key, r, err := parseRecvRule(rest)
+			if err != nil {
+				return nil, fail(l, "%v", err)
+			}
+			r.Pkg, r.ElemType, r.Line = pkgPath, key, l.line
+			cf.RecvRules = append(cf.RecvRules, r)
+		case "recv-from":
+			if target == nil {
+				return nil, fail(l, "recv-from outside func block")
+			}
+			key, r, err := parseRecvRule(rest)
+			if err != nil {
+				return nil, fail(l, "%v", err)
+			}
+			r.Pkg, r.ChanName, r.Line = pkgPath, key, l.line
+			target.RecvFrom = append(target.RecvFrom, r)
 		case "opt":
 			k, v := splitWord(rest)
 			target.Opts[k] = strings.TrimSpace(v)
